@@ -123,6 +123,10 @@ func (p *tcpProc) HandleConn(conn net.Conn) {
 	}()
 
 	done := make(chan struct{})
+	// finished is closed when both directions are done, one direction
+	// may keep relaying for long after the other one has ended.
+	finished := make(chan struct{})
+	defer close(finished)
 
 	// close conn when host removed form host set
 	go func() {
@@ -132,7 +136,7 @@ func (p *tcpProc) HandleConn(conn net.Conn) {
 			sconn.Close()
 			cconn.Close()
 			return
-		case <-done:
+		case <-finished:
 			return
 		}
 	}()
